@@ -278,6 +278,23 @@ theorem filterMX_adjoint (n M : ℕ) (P F : ℕ → ℕ → ℂ) (c : ℂ) (hc :
   simp only [filterMX_eq, fmCtrX_eq]
   exact filterM_adjoint_aux n M P F c hc D x y
 
+/-- a matrix-valued field is filtered column by column -/
+theorem filterMXM_eq_columns {C : Type} [Zero C] [Add C] [Mul C] (n M : ℕ) (P F : ℕ → ℕ → C) (cj : C → C) (cinv : C)
+    (D : ℕ → Bool → Bool → C) (X : Bool → ℕ → ℕ → C) (a : Bool) (c i : ℕ) :
+    filterMXM n M P F cj cinv D X a c i = filterMX n M P F cj cinv D (fun b => X b c) a i := rfl
+
+/-- adjointness of the executable matrix filter on matrix-valued fields (Frobenius inner product) -/
+theorem filterMXM_adjoint (n M ncol : ℕ) (P F : ℕ → ℕ → ℂ) (c : ℂ) (hc : conj c = c)
+    (D : ℕ → Bool → Bool → ℂ) (X Y : Bool → ℕ → ℕ → ℂ) :
+    ∑ a, ∑ k ∈ range ncol, ∑ i ∈ range n, conj (Y a k i) * filterMXM n M P F (starRingEnd ℂ) c⁻¹ D X a k i
+      = ∑ a, ∑ k ∈ range ncol, ∑ i ∈ range n,
+          conj (filterMXM n M P F (starRingEnd ℂ) c⁻¹ (fmCtrX (starRingEnd ℂ) D) Y a k i) * X a k i := by
+  simp only [filterMXM_eq_columns]
+  rw [Finset.sum_comm, Finset.sum_comm (s := (Finset.univ : Finset Bool))]
+  apply Finset.sum_congr rfl
+  intro k _
+  exact filterMX_adjoint n M P F c hc D (fun b => X b k) (fun b => Y b k)
+
 /-! ## 6. Adjointness of `n`-D sums over index lists (`sumOverN`) -/
 
 theorem sumOverN_congr (ns : List ℕ) (F G : List ℕ → ℂ)
